@@ -715,6 +715,19 @@ theorem duration_limits :
     ∧ duration (asc "1.5") = .val errorParsing ∧ duration (asc "0.5h0.5m0.5s") = .val (asc "1830") := by
   decide +kernel
 
+/-- A quirk of Go's `time.ParseDuration` that `{duration}` inherits (mirrored, and the same in the real
+code): the running sum is a uint64 checked against 2^63 only AFTER the addition, so two groups of exactly
+2^63 ns wrap to 0 and the text is accepted – `9223372036854775808ns9223372036854775808ns` is 0 s, with
+`1s` appended 1 s – although one nanosecond less in the second group is refused.  (Found by the round-4b
+generator; out-of-range input is otherwise answered with the error marker, `duration_limits`.) -/
+theorem duration_uint64_wrap_counterexample :
+    duration (asc "9223372036854775808ns9223372036854775808ns") = .val (asc "0")
+    ∧ duration (asc "9223372036854775808ns9223372036854775808ns1s") = .val (asc "1")
+    ∧ duration (asc "-9223372036854775808ns9223372036854775808ns") = .val (asc "0")
+    ∧ duration (asc "9223372036854775808ns9223372036854775807ns") = .val errorParsing
+    ∧ duration (asc "9223372036854775808ns1ns") = .val errorParsing := by
+  decide +kernel
+
 /-- Whatever the text, `{duration}` answers the error marker or a whole number of seconds within
 ±9223372036 (an int64 nanosecond count holds no more): no other text can come out. -/
 theorem duration_range (arg : Bytes) :
